@@ -360,17 +360,11 @@ example : NoFail CompleteExample.exT none := Or.inl rfl
 def lp (id : Nat) : Tok := ⟨id, some 0, id, id + 1⟩
 def rp (id : Nat) : Tok := ⟨id, some 1, id, id + 1⟩
 
-example : KindsInRange CompleteExample.exT [lp 0, rp 1, rp 2] := by
-  intro t ht k hk
-  simp only [List.mem_cons, List.not_mem_nil, or_false] at ht
-  rcases ht with rfl | rfl | rfl <;> cases hk <;> decide
-
 /-- `( ) )`: `UnrecognizedToken` at the third token, nothing expected (only the end of input fits) -/
 theorem ex_token_error : ∃ c, Returns CompleteExample.exT none 0 ([lp 0, rp 1, rp 2].map Item.tok) c
     (.err (.unrecognizedToken (rp 2) [])) := ⟨_, 40, 10, rfl⟩
 
-/-- `( (`: `UnrecognizedEof` at the end of the second token, `)` expected — after the reduction
-    `E → ε` under the end-of-input lookahead… -/
+/-- `( (`: `UnrecognizedEof` at the end of the second token; both `(` and `)` continue the input -/
 theorem ex_eof_error : ∃ c, Returns CompleteExample.exT none 0 ([lp 0, lp 1].map Item.tok) c
     (.err (.unrecognizedEof 2 [0, 1])) := ⟨_, 40, 10, rfl⟩
 
@@ -378,33 +372,29 @@ theorem ex_eof_error : ∃ c, Returns CompleteExample.exT none 0 ([lp 0, lp 1].m
 example : ∃ c, run CompleteExample.exT 10 none 0 3 (init 0 ([lp 0, rp 1, rp 2].map Item.tok)) .pull = (c, .act (rp 1) 1) :=
   ⟨_, rfl⟩
 
-/-- hypotheses of `expected_complete_no_reduction`: in `( ) )` the error is raised … -/
+/-- hypotheses of `expected_complete_no_reduction`: on `)` the error is raised in the step right
+    after the pull, and the list `[ "(" ]` is complete (the empty input is a sentence, `(` continues it) -/
 example : ∃ c₀ c, run CompleteExample.exT 10 none 0 0 (init 0 ([rp 0].map Item.tok)) .pull = (c₀, .pull) ∧
     run CompleteExample.exT 10 none 0 2 (init 0 ([rp 0].map Item.tok)) .pull = (c, .done (.err (.unrecognizedToken (rp 0) [0]))) :=
   ⟨_, _, rfl, rfl⟩
 
-/-- the theorems at work -/
-example : ¬ KindsPrefix CompleteExample.exG 0 ([lp 0, rp 1, rp 2].take 3) := by
+theorem ex_inRange : KindsInRange CompleteExample.exT [lp 0, rp 1, rp 2] := by
+  intro t ht k hk
+  simp only [List.mem_cons, List.not_mem_nil, or_false] at ht
+  rcases ht with rfl | rfl | rfl <;> cases hk <;> decide
+
+/-- the theorems at work on `( ) )`: some `k` splits the input into a sentence prefix and a first
+    bad token, and nothing is expected at that point but the end of input -/
+example : ∃ k, KindsPrefix CompleteExample.exG 0 ([lp 0, rp 1, rp 2].take k) ∧
+    ¬ KindsPrefix CompleteExample.exG 0 ([lp 0, rp 1, rp 2].take (k + 1)) := by
   obtain ⟨c, hc⟩ := ex_token_error
-  obtain ⟨k, hk, _, _, hneg, _⟩ := error_at_first_bad_token ex_validate ex_v5 rfl (S := 0) (by decide)
-    [lp 0, rp 1, rp 2] (by
-      intro t ht k hk
-      simp only [List.mem_cons, List.not_mem_nil, or_false] at ht
-      rcases ht with rfl | rfl | rfl <;> cases hk <;> decide) none (Or.inl rfl) 0 hc
-  have : k = 2 := by
-    have := GenericThms.unrecognized_token_is_last_pulled CompleteExample.exT none 0 _ c _ _ hc
-    have h1 := (this.2 rfl).2.1
-    rcases hc with ⟨n, af, hrun⟩
-    have hp := (GenericThms.pulled_le CompleteExample.exT none 0 af _ n c _ hrun).1
-    simp at hp
-    have h2 := (this.2 rfl).1
-    -- `c.pulled ∈ {1,2,3}` and the token at `c.pulled - 1` is `rp 2`
-    have : c.pulled = 3 := by
-      rcases (by omega : c.pulled = 1 ∨ c.pulled = 2 ∨ c.pulled = 3 ∨ c.pulled = 4) with h | h | h | h <;>
-        rw [h] at h1 <;> simp [lp, rp] at h1 <;> first | exact h | skip
-    omega
-  subst this
-  exact hneg
+  obtain ⟨k, _, _, hpos, hneg, _⟩ := error_at_first_bad_token ex_validate ex_v5 rfl (S := 0) (by decide)
+    [lp 0, rp 1, rp 2] ex_inRange none (Or.inl rfl) 0 hc
+  exact ⟨k, hpos, hneg⟩
+
+example : ∀ c r, Returns CompleteExample.exT none 0 ([lp 0, rp 1, rp 2].map Item.tok) c r →
+    ∀ la, r ≠ .err (.extraToken la) :=
+  fun _ _ hr => no_extra_token (validate_split ex_validate).1 ex_v6 hr
 
 end PrefixExample
 
